@@ -123,6 +123,11 @@ func (u *Unit) sentAt(c Term, i Term, so Sort) Term {
 }
 
 func (u *Unit) chanSendEffect(st *State, in ssa.Instruction, c, v Term) {
+	// a send is visible to contracts as a call event with designator "send"
+	if fr := u.curFrame; fr != nil {
+		u.callAssertions(st, fr, in, []string{"send"}, []Term{c, v})
+	}
+	u.bumpCalls(st, []string{"send"}, []Term{c, v}, nil)
 	u.ghostMonotone(st, "ch_closed", c)
 	closed := u.ghostGet(st, "ch_closed", SBool, c)
 	ord := u.siteOrdinal(in, "chan-closed")
@@ -168,6 +173,7 @@ func (u *Unit) chanClose(st *State, fr *Frame, in ssa.Instruction, c Term) {
 func (u *Unit) execSend(st *State, fr *Frame, x *ssa.Send) {
 	c := u.term(st, fr, x.Chan)
 	v := u.term(st, fr, x.X)
+	u.curFrame = fr
 	u.blockingOp(st, fr, x, "send")
 	u.havocChans(st)
 	u.chanSendEffect(st, x, c, v)
@@ -204,6 +210,7 @@ func (u *Unit) blockingOp(st *State, fr *Frame, in ssa.Instruction, what string)
 }
 
 func (u *Unit) execSelect(st *State, fr *Frame, x *ssa.Select, k Kont) {
+	u.curFrame = fr
 	n := len(x.States)
 	chans := make([]Term, n)
 	sends := make([]Term, n)
@@ -410,7 +417,8 @@ func (u *Unit) execGo(st *State, fr *Frame, x *ssa.Go) {
 				ord := u.siteOrdinal(x, "pre:go")
 				u.Prove(st, u.obligName("pre:go:"+u.P.FuncNames[body], fmt.Sprintf("r%d#%d", i, ord)), "pre", u.tagsOr(mergeTags(unionTags(ct), cl.Tags)), posOf(x), "spawned body requires "+cl.Text, g, nil)
 			}
-			u.usedContracts[u.P.unitNameOf(body)] = true
+			// nothing of the spawned body's contract is assumed by the spawner, so it is
+			// not a dependency of this proof
 		} else {
 			u.abstracted("go statement: body " + body.String() + " has no contract (verified separately only if listed)")
 		}
@@ -829,8 +837,49 @@ func (u *Unit) typeInvariants(st *State, fr *Frame, mu, obj Term, site ssa.Instr
 	if ts == nil {
 		return
 	}
+	// the mutex field this Lock/Unlock is about
+	muField := ""
+	if stt, ok := owner.typ.Underlying().(*types.Struct); ok {
+		for i := 0; i < stt.NumFields(); i++ {
+			if u.fieldFn(owner.typ, i) == mu.Op {
+				muField = stt.Field(i).Name()
+			}
+		}
+	}
 	for i, cl := range ts.Clauses {
 		if cl.Kind != "invariant" {
+			continue
+		}
+		// an invariant belongs to the mutexes guarding the fields it mentions
+		guards := map[string]bool{}
+		var walk func(x Expr)
+		walk = func(x Expr) {
+			switch x := x.(type) {
+			case ESel:
+				if id, ok := x.X.(EIdent); ok && id.Name == "self" {
+					if g, ok := ts.Guarded[x.Name]; ok {
+						guards[g] = true
+					}
+				}
+				walk(x.X)
+			case EBinary:
+				walk(x.X)
+				walk(x.Y)
+			case EUnary:
+				walk(x.X)
+			case ECall:
+				for _, a := range x.Args {
+					walk(a)
+				}
+			case EIndex:
+				walk(x.X)
+				walk(x.I)
+			case EForall:
+				walk(x.Body)
+			}
+		}
+		walk(cl.Expr)
+		if len(guards) > 0 && !guards[muField] {
 			continue
 		}
 		env := &Env{u: u, st: st, old: st, vars: map[string]EVal{"self": {T: obj, Ty: types.NewPointer(owner.typ)}}, pkg: owner.pkg, freshLo: u.entryFresh, assuming: assume}
